@@ -67,6 +67,15 @@ Proof. exact reach_hold. Qed.
 Theorem C11_usage_always : forall sc s m, reach_fl sc s -> usage (r_pools (f_rm (fst s))) m = hold_total (fst s) m.
 Proof. intros sc s m H. exact (hw_usage _ (reach_hold sc s H) m). Qed.
 
+(** finishing a part while holding a reservation schedules the release-if-idle event at this very instant, after the hand-over
+    attempt: the resources go back unless the next part is accepted in between *)
+Theorem C11_finish_schedules_release : forall fuel nw w d it i,
+  d_kind (getd w d) = KProcessor -> d_shut (getd w d) = false -> d_part (getd w d) = Some it -> d_out (getd w d) = None ->
+  d_reserved (getd w d) = Some i -> amem d (f_devs w) = true ->
+  exists l l', f_out (finish_cycle fuel nw w d) = l ++ FSched nw P_RELEASE d (AReleaseIfIdle d) :: l' /\
+               In (FSched (Z.max 0 (nw + 0)) P_PASS_PART d (APassPart d)) l'.
+Proof. exact finish_schedules_release. Qed.
+
 Print Assumptions C11_usage_is_sum_of_holdings.
 Print Assumptions C11_invariant_event.
 Print Assumptions C11_invariant_call.
@@ -83,6 +92,7 @@ Print Assumptions C11_release_clears.
 
 Print Assumptions C11_always.
 Print Assumptions C11_usage_always.
+Print Assumptions C11_finish_schedules_release.
 (** Non-vacuity: a world with one pool (capacity 16) and a processor requiring 8 of it satisfies the invariant
     before anything is reserved, and after the processor reserved. *)
 Definition c11_w0 : fw :=
